@@ -520,4 +520,9 @@ def run(facts, rep, tier, ctx):
         p = subprocess.run([os.path.join(ctx["V"], "bin", "witness.sh"), ctx["repo"], "c18"], stdout=subprocess.PIPE, stderr=subprocess.STDOUT, text=True)
         rep.ob("R18.2w", "witness", "compile-fail witness: EmbeddedFS offers no mutable access (with compiling twin)", p.returncode == 0,
                p.stdout[-300:] if p.returncode else "witnesses behave", "witness/")
+    # R18.7 every embedded entry is addressed through join(): a listed name must lead back to the entry it names (dots-only names
+    # longer than '..' are ordinary names) — C06 R06.2/R06.3
+    from . import c06 as _c06j
+    from .c10 import _Prefixed as _Pf18j
+    _c06j.joiner_rules(facts, _Pf18j(rep, "R18.7"), D)
     rep.assume("rust-embed's iter()/get() return build-time data; their agreement with the folder on disk is outside static reach")
